@@ -303,6 +303,11 @@ pub struct Journal {
     /// chunk starts that have been deleted
     pub removed: Vec<u64>,
     pub limits: Limits,
+    /// eviction boundary the protocol has in force under the eager worker
+    /// policy (see `on_sync`): the `last` at the rotation before the latest one
+    /// until a flush, then the `last` at the latest rotation
+    pub boundary_effective: Option<LogId>,
+    pub boundary_latest: Option<LogId>,
 }
 
 impl Journal {
@@ -320,6 +325,8 @@ impl Journal {
             pending_removal: vec![],
             removed: vec![],
             limits,
+            boundary_effective: None,
+            boundary_latest: None,
         }
     }
 
@@ -345,6 +352,11 @@ impl Journal {
         if full {
             open.closed = true;
             open.closing_last = state_after.last;
+            // rotation: the tail write's sync installs the boundary of the file
+            // it is written to (the previous rotation's `last`); the new file's
+            // boundary (this rotation's `last`) takes effect at the next sync
+            self.boundary_effective = self.boundary_latest;
+            self.boundary_latest = state_after.last;
             let start = open.end();
             let head = MRec::State(state_after.clone());
             let hl = enc::encode(&head).len() as u64;
@@ -378,6 +390,7 @@ impl Journal {
     pub fn on_flush_done(&mut self) {
         let p = std::mem::take(&mut self.pending_removal);
         self.removed.extend(p);
+        self.boundary_effective = self.boundary_latest;
     }
 
     /// Effect of a clean close + open under (possibly) different limits.
@@ -385,6 +398,11 @@ impl Journal {
         self.on_flush_done();
         self.limits = limits;
         // The newest chunk is reused as the open chunk; nothing is written.
+        // open() installs the `last` after the chunk before it.
+        let n = self.chunks.len();
+        let b = if n >= 2 { self.chunks[n - 2].closing_last } else { None };
+        self.boundary_effective = b;
+        self.boundary_latest = b;
     }
 
     pub fn on_disk_size(&self) -> u64 {
